@@ -40,7 +40,7 @@ def chunked_iterator_contract(chk):
     eng = chk.eng
     E = z3.Function("elem", IS, RS)
     n, p0, s, i0 = z3.Ints("n_items p_start chunk_size i0")
-    rep = {"what": "chunked"}
+    rep = {"what": "chunked", "shared": True}
 
     class Sink:
         def __init__(self, fr, st):
@@ -277,7 +277,7 @@ def integrate_chunked(chk, su):
     s = z3.Int("chunk_size")
     ps = framework.PrefixSum(f"flat_{su.label}", su.term)
     N = su.total()
-    rep = {"what": "integrate", "setup": su.label, "route": "non-vectorized"}
+    rep = {"what": "integrate", "setup": su.label, "route": "non-vectorized", "shared": True}
     name = f"integrate/non-vectorized/{su.label}"
 
     def chunk_contract(eng_, f, args, kwargs):
@@ -369,7 +369,7 @@ def integrate_vectorized(chk, su):
     N = su.total()
     nl = su.n[-1]
     Npre = M.size_of(su.n[:-1]) if su.D > 1 else 1
-    rep = {"what": "integrate", "setup": su.label, "route": "vectorized"}
+    rep = {"what": "integrate", "setup": su.label, "route": "vectorized", "shared": True}
     name = f"integrate/vectorized/{su.label}"
 
     def thunk(eng_):
@@ -459,7 +459,7 @@ def integrate_vectorized(chk, su):
             hy = list(o.pc) + ps.unfold()
             if su.D == 1:
                 for app in framework.find_sites(T.zr(o.value)):
-                    hy.append(framework.match_sum(chk, f"{name}/result", app, ps, 0, N - 1, list(o.pc), func=FQ_INT, meta={"replay": rep},
+                    hy.append(framework.match_sum(chk, f"{name}/result", app, ps, 0, N - 1, list(o.pc), func=FQ_INT, meta={"replay": rep}, toplevel=True,
                                                   assumptions=list(o.assumptions)))
             chk.add(f"{name}/post/result-is-the-flattened-product-sum", hy, T.zr(o.value) == ps.P(T.zi(N)), func=FQ_INT, meta={"replay": rep},
                     assumptions=list(o.assumptions))
@@ -522,7 +522,7 @@ def enumerations(chk, su):
     eng = chk.eng
     N = su.total()
     k0 = z3.Int("k0")
-    rep = {"what": "enumeration", "setup": su.label}
+    rep = {"what": "enumeration", "setup": su.label, "shared": True}
     name = f"enumeration/{su.label}"
     fq = f"{MOD}.MultiDomainGrid.points"
 
